@@ -1559,9 +1559,27 @@ class FuncVerifier(object):
             recv, meth = f[1], f[2]
             o = st.heap[recv.loc]
             mfile, mcls, mdef = self.find_method(o.cls, meth)
-            callee = self.select_variant(mfile, mcls, meth, [recv] + args, st) if not kwargs else None
+            callee, full = None, [recv] + args
+            if not kwargs:
+                callee = self.select_variant(mfile, mcls, meth, full, st)
+            else:
+                # keyword arguments: placed by parameter name of the real signature, then matched like positional ones
+                names = [a.arg for a in mdef.args.args]
+                if all(k in names[len(full):] for k in kwargs) and not mdef.args.vararg and not mdef.args.kwarg:
+                    last = max(names.index(k) for k in kwargs)
+                    ordered, ok_ = list(full), True
+                    for nm in names[len(full):last + 1]:
+                        if nm in kwargs:
+                            ordered.append(kwargs[nm])
+                        else:
+                            ok_ = False        # a skipped middle parameter: leave it to inlining
+                            break
+                    if ok_:
+                        callee = self.select_variant(mfile, mcls, meth, ordered, st)
+                        if callee is not None:
+                            full = ordered
             if callee is not None:
-                return self.call_contract('%s.%s' % (mcls, meth), [recv] + args, n, st, mfile, callee=callee)
+                return self.call_contract('%s.%s' % (mcls, meth), full, n, st, mfile, callee=callee)
             return self.inline_call(mfile, mcls, mdef, [recv] + args, kwargs, st, n)
         if isinstance(f, Tag) and f.kind == 'boundmethod':
             (mfile, mcls, mdef), recv = f[1], f[2]
@@ -2052,6 +2070,8 @@ class FuncVerifier(object):
                     raise OutOfFragment('argument %s of %s must be a scalar' % (p, fname), n)
                 env[p] = to_z3(a)
         heap_pre = dict(st.heap)
+        st.snaps = dict(st.snaps)
+        st.snaps[site + '.pre'] = (dict(st.env), heap_pre)          # ghost code may refer to at('call:<f>#<k>.pre', e)
         spre = SpecEval(self.lib.theory, env, heap_pre, env, heap_pre, self.lib.preds)
         for k, r in enumerate(callee.requires):
             self.oblige(st, '%s.pre%d' % (site, k), spre.ev_bool(r), n, note=r)
